@@ -227,6 +227,61 @@ def scenario(args):
         cl.shutdown()
 
 
+def lagging_read(args):
+    """A follower is frozen (SIGSTOP) while a write is acknowledged by the other two nodes; a GET is then sent to the frozen
+    follower, which is resumed. The GET was invoked after the write was acknowledged, so it must return the new value (or a
+    later one): reads take their place in the agreed order like every other command. Recorded as a history and decided by
+    TraceLin like the other scenarios."""
+    name, rounds, idx = args
+    cl = cluster.Cluster(3, trace=False).start_all()
+    rec = Recorder(idx)
+    stats = {"answered": 0, "unanswered": 0, "faults": []}
+    result = {"name": name, "stats": stats, "path": None, "violations": [], "inconclusive": None}
+    try:
+        if cl.wait_serving(timeout=60) is None:
+            result["inconclusive"] = "cluster did not start serving"
+            return result
+        L = None
+        t0 = time.time()
+        while L is None and time.time() - t0 < 30:      # answering PING need not mean that an election has happened
+            L = leader_of(cl)
+            if L is None:
+                time.sleep(0.3)
+        if L is None:
+            result["inconclusive"] = "no leader line in the logs"
+            return result
+        followers = [nd for nd in cl.nodes if nd is not L]
+        lc = L.client(timeout=8.0)
+        for r in range(rounds):
+            F = followers[r % 2]
+            key = "lag%d" % r
+            try:
+                op = rec.new_op(["SET", key, "old%d" % r]); rec.done(op, conv(lc.cmd(*op["argv"], timeout=8.0)))
+                fc = F.client(timeout=8.0)
+                op = rec.new_op(["GET", key]); rec.done(op, conv(fc.cmd(*op["argv"], timeout=8.0)))   # the follower has applied "old"
+                cl.stop_cont(F, True)
+                op = rec.new_op(["SET", key, "new%d" % r]); rec.done(op, conv(lc.cmd(*op["argv"], timeout=8.0)))
+                op = rec.new_op(["GET", key])
+                fc.send_raw(server.encode(op["argv"]))
+                time.sleep(0.05)
+                cl.stop_cont(F, False)
+                rec.done(op, conv(fc.read_reply(timeout=8.0)))
+                stats["answered"] += 4
+                fc.close()
+            except Exception as e:
+                cl.stop_cont(F, False)
+                stats["unanswered"] += 1
+                result["inconclusive"] = "round %d: %r" % (r, e)
+                break
+        stats["faults"].append("%d rounds of SIGSTOP follower / write through the leader / GET through the follower / SIGCONT" % rounds)
+        path = os.path.join(d, "hist-%d.ndjson" % idx)
+        rec.write(path)
+        result["path"] = path
+        return result
+    finally:
+        cl.shutdown()
+
+
 if tier == "quick":
     plan = [("steady", 3, [], 6, 20), ("follower-or-leader-kill", 3, ["kill-restart"], 5, 25), ("pause", 3, ["pause"], 5, 20),
             ("pinned-one-client-per-node", 3, [], 3, 40), ("membership-add", 3, ["add-node"], 5, 40), ("membership-remove", 3, ["remove-node"], 5, 40),
@@ -247,7 +302,10 @@ fjobs = [("failover-after-follower-crash-at-%s" % g, g, o, 100 + i) for i, (g, o
 if ONLY:
     fjobs = [j for j in fjobs if ONLY in j[0]]
 with concurrent.futures.ThreadPoolExecutor(max_workers=4) as ex:
-    fut = [ex.submit(scenario, j) for j in jobs] + [ex.submit(clusterscen.failover, j, seed, d) for j in fjobs]
+    ljobs = [("read-through-lagging-follower", 6 if tier == "quick" else 40, 200)]
+    if ONLY:
+        ljobs = [j for j in ljobs if ONLY in j[0]]
+    fut = [ex.submit(scenario, j) for j in jobs] + [ex.submit(clusterscen.failover, j, seed, d) for j in fjobs] + [ex.submit(lagging_read, j) for j in ljobs]
     results = [f.result() for f in fut]
 hist_paths = []
 skipped = 0
